@@ -987,6 +987,10 @@ class ContainsCriterion(Criterion):
         self.term = self.term.replace_table(current_table, new_table)
         self.container = self.container.replace_table(current_table, new_table)
 
+    def __str__(self) -> str:
+        # printed on its own, this criterion has always shown its alias; inside a statement the context decides
+        return self.get_sql(DEFAULT_SQL_CONTEXT.copy(with_alias=True))
+
     def get_sql(self, ctx: SqlContext) -> str:
         container_ctx = ctx.copy(subquery=True, with_alias=False)
         sql = "{term} {not_}IN {container}".format(
@@ -994,7 +998,9 @@ class ContainsCriterion(Criterion):
             container=self.container.get_sql(container_ctx),
             not_="NOT " if self._is_negated else "",
         )
-        return format_alias_sql(sql, self.alias, ctx)
+        if ctx.with_alias:
+            return format_alias_sql(sql, self.alias, ctx)
+        return sql
 
     @builder
     def negate(self) -> "Self":  # type:ignore[return,override]
@@ -1038,6 +1044,10 @@ class BetweenCriterion(RangeCriterion):
         self.start = self.start.replace_table(current_table, new_table)
         self.end = self.end.replace_table(current_table, new_table)
 
+    def __str__(self) -> str:
+        # printed on its own, this criterion has always shown its alias; inside a statement the context decides
+        return self.get_sql(DEFAULT_SQL_CONTEXT.copy(with_alias=True))
+
     def get_sql(self, ctx: SqlContext) -> str:
         # FIXME escape
         operand_ctx = ctx.copy(with_alias=False)
@@ -1046,7 +1056,9 @@ class BetweenCriterion(RangeCriterion):
             start=self.start.get_sql(operand_ctx),
             end=self.end.get_sql(operand_ctx),
         )
-        return format_alias_sql(sql, self.alias, ctx)
+        if ctx.with_alias:
+            return format_alias_sql(sql, self.alias, ctx)
+        return sql
 
 
 class PeriodCriterion(RangeCriterion):
@@ -1100,12 +1112,18 @@ class BitwiseAndCriterion(Criterion):
         """
         self.term = self.term.replace_table(current_table, new_table)
 
+    def __str__(self) -> str:
+        # printed on its own, this criterion has always shown its alias; inside a statement the context decides
+        return self.get_sql(DEFAULT_SQL_CONTEXT.copy(with_alias=True))
+
     def get_sql(self, ctx: SqlContext) -> str:
         sql = "({term} & {value})".format(
             term=self.term.get_sql(ctx.copy(with_alias=False)),
             value=self.value,
         )
-        return format_alias_sql(sql, self.alias, ctx)
+        if ctx.with_alias:
+            return format_alias_sql(sql, self.alias, ctx)
+        return sql
 
 
 class NullCriterion(Criterion):
@@ -1133,11 +1151,17 @@ class NullCriterion(Criterion):
         """
         self.term = self.term.replace_table(current_table, new_table)
 
+    def __str__(self) -> str:
+        # printed on its own, this criterion has always shown its alias; inside a statement the context decides
+        return self.get_sql(DEFAULT_SQL_CONTEXT.copy(with_alias=True))
+
     def get_sql(self, ctx: SqlContext) -> str:
         sql = "{term} IS NULL".format(
             term=self.term.get_sql(ctx.copy(with_alias=False)),
         )
-        return format_alias_sql(sql, self.alias, ctx)
+        if ctx.with_alias:
+            return format_alias_sql(sql, self.alias, ctx)
+        return sql
 
 
 class ComplexCriterion(BasicCriterion):
@@ -1371,10 +1395,16 @@ class Not(Criterion):
         yield self  # type:ignore[misc]
         yield from self.term.nodes_()
 
+    def __str__(self) -> str:
+        # printed on its own, this criterion has always shown its alias; inside a statement the context decides
+        return self.get_sql(DEFAULT_SQL_CONTEXT.copy(with_alias=True))
+
     def get_sql(self, ctx: SqlContext) -> str:
         not_ctx = ctx.copy(subcriterion=True, with_alias=False)
         sql = "NOT {term}".format(term=self.term.get_sql(not_ctx))
-        return format_alias_sql(sql, self.alias, ctx)
+        if ctx.with_alias:
+            return format_alias_sql(sql, self.alias, ctx)
+        return sql
 
     @ignore_copy
     def __getattr__(self, name: str) -> Any:
